@@ -7,7 +7,6 @@
 From Coq Require Import NArith List String Bool.
 From Falco Require Import Base.TablesBase Model.ScopeMask Model.LintTables Model.LintOps Model.TablesDomain Model.InterpAssign.
 From Falco Require Import Gen.ObsVars Gen.ObsOps Gen.ObsCoerce Gen.ObsInferred Gen.KnownGaps.
-From Falco Require Import Proofs.TablesProofs.
 Import ListNotations.
 Local Open Scope N_scope.
 Local Open Scope string_scope.
@@ -82,6 +81,28 @@ Proof.
     split; [exact Hin|]. split; [vm_compute; tauto|]. split; assumption.
   - vm_compute in E. discriminate.
 Qed.
+
+(* ================================================================ spellings of a literal *)
+Definition variant_check (r : string * string * N * N) (v : N * string * string * string) : bool :=
+  match r, v with (op, lty, lint, interp), (i, _, t, f) =>
+    Bool.eqb (lint_op_model op lty t f) (N.testbit lint i) && Bool.eqb (interp_op_model op lty t f) (N.testbit interp i)
+  end.
+
+(* a negative number, an RTIME in minutes / hours / days / years / milliseconds, a long string, false, and a header
+   sub-field (req.http.X:sub) get, as right operand of every operator and target type, the verdicts of the plain
+   literal (resp. header) of their type - from the linter and from the simulator *)
+Theorem op_variants_eq_base : forall op lty lint interp i vid t f,
+  In (op, lty, lint, interp) obs_op_variants -> In (i, vid, t, f) lit_variants ->
+  lint_op_model op lty t f = N.testbit lint i /\ interp_op_model op lty t f = N.testbit interp i.
+Proof.
+  assert (H : forallb (fun r => forallb (variant_check r) lit_variants) obs_op_variants = true)
+    by (vm_cast_no_check (eq_refl true)).
+  intros op lty lint interp i vid t f Hr Hv.
+  pose proof (forallb2_lift _ _ _ _ _ H _ _ Hr Hv) as C. unfold variant_check in C.
+  apply andb_true_iff in C. destruct C as [C1 C2]. split; apply eqb_prop; assumption.
+Qed.
+Theorem obs_op_variants_domain : map obs_op_key obs_op_variants = op_rows.
+Proof. vm_compute. reflexivity. Qed.
 
 (* ================================================================ provenance of the left operand *)
 Theorem obs_ops_left_domain : map (fun r => match r with (op, l, lp, _, _) => (op, l, lp) end) obs_ops_left = opl_rows.
